@@ -409,6 +409,11 @@ fn gen_layer(rng: &mut Rng, normal_only: bool, transparent: bool) -> LayerD {
         let (fg, bg) = if half { if rng.bool() { (rng.below(16) as u32, TR) } else { (TR, rng.below(8) as u32) } } else { (rng.below(16) as u32, rng.below(8) as u32) };
         l.cells.push(CellD { x, y, ch, fg, bg, attr: if rng.chance(1, 6) { icy_engine::attribute::BOLD } else { 0 }, fp: 0 });
     }
+    // a layer need not store rows it has no cells in: cleared and cropped layers keep their size with fewer (or no) rows
+    l.rows_trimmed = rng.chance(1, 3);
+    if l.rows_trimmed && rng.chance(1, 3) {
+        l.cells.clear();
+    }
     l
 }
 
@@ -533,7 +538,7 @@ impl Prop for C13 {
         "C13"
     }
     fn rule(&self) -> &'static str {
-        "stacks of 1..=5 layers (sizes 1..=12 x 1..=8, offsets -4..=6, normal/chars/attributes mode, alpha or opaque, visible or hidden, sparse content incl. transparent-colour half blocks, optional overlay) are queried with Buffer::get_char at every position of the bounding box plus a 2-cell border before and after a transformation that the stacking laws say is invisible: L1 insert an empty alpha layer at a stack index; L2 rewrite the cells of a hidden layer; L3 translate every layer and the overlay by d and query at p+d; L4 remove all layers below a visible opaque normal-mode layer and query inside its rectangle (also where the opaque layer's own cell uses the transparent colour); L5 move a layer and query positions it covers neither before nor after; L6 compare with a 15-line reference compositor on the fragment 'all layers normal mode, no transparent colours, no overlay'; L7 on normal-mode stacks with transparent-colour cells the topmost visible cell supplies the glyph and each of its own non-transparent colours; L8 give the invisible cells of alpha layers a payload (glyph, colours, flags next to the INVISIBLE flag); L9 where the topmost cell is a half block (220/223) with one transparent colour above another half block, change the colour of the lower cell's half that lies behind the topmost cell's solid half; L10 exchange the glyphs stored in attributes-mode layers (blank <-> non-blank); L11 the first opaque contribution ends the walk: where the layers from a visible normal-mode layer i upward, with a cell of layer i at the position, show a visible cell with solid colours, the whole stack shows the same cell (two thirds of these stacks have a dense attributes- or chars-mode layer on top). Invisible results are compared as invisible only. distinct_nontrivial = distinct (law, stack shape, parameters) instances"
+        "stacks of 1..=5 layers (sizes 1..=12 x 1..=8, offsets -4..=6, normal/chars/attributes mode, alpha or opaque, visible or hidden, sparse content incl. transparent-colour half blocks, a third of the layers storing no rows beyond their last cell - none at all when they hold no cell -, optional overlay) are queried with Buffer::get_char at every position of the bounding box plus a 2-cell border before and after a transformation that the stacking laws say is invisible: L1 insert an empty alpha layer at a stack index; L2 rewrite the cells of a hidden layer; L3 translate every layer and the overlay by d and query at p+d; L4 remove all layers below a visible opaque normal-mode layer and query inside its rectangle (also where the opaque layer's own cell uses the transparent colour); L5 move a layer and query positions it covers neither before nor after; L6 compare with a 15-line reference compositor on the fragment 'all layers normal mode, no transparent colours, no overlay'; L7 on normal-mode stacks with transparent-colour cells the topmost visible cell supplies the glyph and each of its own non-transparent colours; L8 give the invisible cells of alpha layers a payload (glyph, colours, flags next to the INVISIBLE flag); L9 where the topmost cell is a half block (220/223) with one transparent colour above another half block, change the colour of the lower cell's half that lies behind the topmost cell's solid half; L10 exchange the glyphs stored in attributes-mode layers (blank <-> non-blank); L11 the first opaque contribution ends the walk: where the layers from a visible normal-mode layer i upward, with a cell of layer i at the position, show a visible cell with solid colours, the whole stack shows the same cell (two thirds of these stacks have a dense attributes- or chars-mode layer on top). Invisible results are compared as invisible only. distinct_nontrivial = distinct (law, stack shape, parameters) instances"
     }
     fn meta(&self, ctx: &Ctx) -> Value {
         json!({"floor_evaluations": 5000, "floor_distinct": ctx.tier.pick(5000u64, 100000u64),
